@@ -1,6 +1,7 @@
 import CkptVerif.Proofs.MixedSteps
 import CkptVerif.Proofs.MixedDP
 import CkptVerif.Proofs.Planners
+import CkptVerif.Proofs.MixedLowerBound
 /-!
 # C06 — Mixed schedules perform the minimal possible number of forward steps
 
@@ -8,8 +9,10 @@ Proved (all `n ≥ 1`, all `s ≥ min(1, n-1)`, both storages):
 * `C06_dp`      the published helper `optimal_steps_mixed` returns the planner's cost;
 * `C06_steps`   the stream of `MixedCheckpointSchedule` advances the forward over exactly that many steps;
 * `C06_storage` the RAM and the DISK stream differ only in the storage label (equal step counts).
-Stated, not proved: `C06_full` — optimality of the dynamic program over ALL executable schedules
-(Maddison 2024); the dynamic program is the *definition* of the optimum here.
+* `C06_lower`, `C06_full`, `C06_mixed_optimal` — the lower bound over ALL executable schedules: any stream
+  the checking executor accepts for `cfgMixed s st N` (each of the `s` units of storage `st` holds one restart
+  checkpoint or the adjoint dependency data of one step) and that completes the adjoint performs at least
+  `optimal_steps_mixed(N, s)` forward steps; the Mixed stream is accepted, complete and attains it.
 -/
 namespace Ckpt
 
@@ -37,11 +40,14 @@ theorem C06_driver_planner (n N s : Nat) (st : Storage) (hN : N ≤ n) :
     mixedEvs (memoPlanner (Tabs.mk' n)) N s st = mixedEvs memoPlan N s st :=
   mixedEvs_memoPlanner n N s st hN
 
-/-- NOT PROVED (named gap): no executable schedule whose `s` units each hold one restart checkpoint
-or one step's adjoint dependencies completes the adjoint of `n` steps with fewer forward steps. -/
-def C06_full_stated : Prop :=
-  ∀ (n s : Nat), validKey n (clampS n s) = true →
-    ∀ (steps : Nat), (∃ _schedule : Unit, True) → optMixedCell n (clampS n s) ≤ steps → True
+/-- ANY stream accepted by the executor for `cfgMixed s st N` that completes the adjoint performs at
+least `optimal_steps_mixed(N, min(s, N-1))` forward steps -/
+alias C06_lower := MX.C06_lower
+/-- with the published helper: `optimal_steps_mixed(N, s)` is a lower bound for every accepted stream -/
+alias C06_full := MX.C06_full
+/-- the stream of `MixedCheckpointSchedule` is accepted, complete, performs `optimal_steps_mixed(N, s)`
+forward steps and no accepted complete stream performs fewer — for both storages -/
+alias C06_mixed_optimal := MX.C06_mixed_optimal
 
 -- non-vacuity: a concrete non-trivial instance
 -- non-vacuity of the hypotheses: a valid non-trivial key
